@@ -254,7 +254,8 @@ class CGraph:
 
         utpm_x_list = []
         for xi in x_list:
-            element = numpy.asarray(xi).reshape((1,1) + numpy.shape(xi))
+            # a copy: a recorded program may write into its argument
+            element = numpy.array(xi).reshape((1,1) + numpy.shape(xi))
             utpm_x_list.append(algopy.UTPM(element))
 
         self.pushforward(utpm_x_list)
